@@ -202,7 +202,7 @@ func c19DrawOp(t *rapid.T, label string, sess int) c19Op {
 	op := c19Op{Sess: sess, Kind: rapid.SampledFrom(kinds).Draw(t, label+"op")}
 	op.ID = rapid.SampledFrom([]string{"a", "b", "c"}).Draw(t, label+"id")
 	if op.Kind == "EVENT" || op.Kind == "AUTH" {
-		op.K = rapid.SampledFrom([]int64{0, 1, 1, 7, 30000}).Draw(t, label+"k")
+		op.K = rapid.SampledFrom([]int64{0, 1, 1, 7, 30000, 65535, 65536, 65537, 70000, 4464, -1}).Draw(t, label+"k")
 	}
 	return op
 }
